@@ -136,6 +136,8 @@ impl<'a> LinearLocator<'a> {
     }
 
     pub fn locate(&mut self, offset: crate::text_size::TextSize) -> SourceLocation {
+        #[cfg(feature = "verif-hooks")]
+        self.verif_record(verif_hooks::CallKind::Locate, offset);
         debug_assert!(
             self.state.cursor <= offset,
             "{:?} -> {:?} {}",
@@ -156,6 +158,8 @@ impl<'a> LinearLocator<'a> {
     }
 
     pub fn locate_only(&mut self, offset: crate::text_size::TextSize) -> SourceLocation {
+        #[cfg(feature = "verif-hooks")]
+        self.verif_record(verif_hooks::CallKind::LocateOnly, offset);
         let (column, new_state) = self.locate_inner(offset);
         let state = new_state.as_ref().unwrap_or(&self.state);
         SourceLocation {
@@ -250,6 +254,87 @@ impl<'a> LinearLocator<'a> {
             location: Some(location),
             source_path: base.source_path,
         }
+    }
+}
+
+/// Verification hooks (off by default): a thread-local recorder of the calls a
+/// [`LinearLocator`] receives and a read-only view of its cursor. Nothing here
+/// changes what the locator computes.
+#[cfg(feature = "verif-hooks")]
+pub mod verif_hooks {
+    use std::cell::RefCell;
+
+    /// Which entry point was called.
+    #[derive(Debug, Clone, Copy, PartialEq, Eq)]
+    pub enum CallKind {
+        Locate,
+        LocateOnly,
+    }
+
+    /// One `locate`/`locate_only` call as seen on entry (before any assertion).
+    #[derive(Debug, Clone, Copy, PartialEq, Eq)]
+    pub struct Call {
+        pub kind: CallKind,
+        pub cursor_before: u32,
+        pub line_start_before: u32,
+        pub line_number_before: u32,
+        pub offset: u32,
+    }
+
+    /// Read-only copy of `LinearLocatorState`.
+    #[derive(Debug, Clone, Copy, PartialEq, Eq)]
+    pub struct CursorState {
+        pub line_start: u32,
+        pub line_end: Option<u32>,
+        pub line_number: u32,
+        pub cursor: u32,
+        pub is_ascii: bool,
+    }
+
+    thread_local! {
+        static CALLS: RefCell<Option<Vec<Call>>> = const { RefCell::new(None) };
+    }
+
+    /// Start recording on this thread (drops anything recorded before).
+    pub fn start_recording() {
+        CALLS.with(|calls| *calls.borrow_mut() = Some(Vec::new()));
+    }
+
+    /// Stop recording on this thread and return what was recorded.
+    pub fn take_recording() -> Vec<Call> {
+        CALLS.with(|calls| calls.borrow_mut().take().unwrap_or_default())
+    }
+
+    pub(super) fn record(call: Call) {
+        CALLS.with(|calls| {
+            if let Some(calls) = calls.borrow_mut().as_mut() {
+                calls.push(call);
+            }
+        });
+    }
+}
+
+#[cfg(feature = "verif-hooks")]
+impl LinearLocator<'_> {
+    /// Read-only copy of the cursor state.
+    pub fn verif_state(&self) -> verif_hooks::CursorState {
+        verif_hooks::CursorState {
+            line_start: self.state.line_start.to_u32(),
+            line_end: self.state.line_end.map(|end| end.to_u32()),
+            line_number: self.state.line_number.get(),
+            cursor: self.state.cursor.to_u32(),
+            is_ascii: self.state.is_ascii,
+        }
+    }
+
+    fn verif_record(&self, kind: verif_hooks::CallKind, offset: TextSize) {
+        verif_hooks::record(verif_hooks::Call {
+            kind,
+            cursor_before: self.state.cursor.to_u32(),
+            line_start_before: self.state.line_start.to_u32(),
+            line_number_before: self.state.line_number.get(),
+            offset: offset.to_u32(),
+        });
     }
 }
 
